@@ -364,6 +364,26 @@ class World:
         getattr(obj, method)(sub)
         self.trace.add("user.subscribe", k=name, m=method, target=tuple(step["target"]))
 
+    def op_user_sock_subscribe(self, step) -> None:
+        """Extra message subscriber on the bare socket (may raise, may yield)."""
+        name = step.get("name", "extra")
+        sub = Sub(self, name, raises=step.get("raises", False), yields=step.get("sub_yields", 0))
+        self.subs[name] = sub
+        self.sock.subscribe_on_message_received(sub)
+
+    def op_user_send_raw_object(self, step) -> None:
+        """send_with_header() of a message no encoder is registered for."""
+        import pyairtouch.comms as pc
+
+        async def go():
+            msg = pc.UnsupportedMessage(unsupported_id=step.get("mid", 0x77), raw_data=b"\x01\x02")
+            ok = adapter.message_from(self.gen, {"kind": "ac_status_request"})
+            enc = self.registry.get_encoder(ok.message_id)
+            hdr = self.registry.header_factory.create_from_message(ok, enc.size(ok))
+            await self.sock.send_with_header(hdr, msg, adapter.policy_of(step.get("policy", "idem")))
+
+        self._spawn_user(step, go)
+
     def op_user_snapshot(self, step) -> None:
         self.take_snapshot(step.get("label", ""))
 
@@ -497,6 +517,11 @@ class World:
         link = self.net.current_link()
         if link is not None and step.get("current", True):
             link.latency = step["latency"]
+
+    def op_net_clear_faults(self, step) -> None:
+        """End of a fault script: nothing stays armed."""
+        self.net.write_faults.clear()
+        self.net.fates.clear()
 
     def op_noop(self, step) -> None:
         pass
